@@ -593,4 +593,91 @@ theorem matchAll_rel {opts : Opts} {d : Decls} {on off : Defs} (m : MRel opts d 
   simp only
   rw [s1]
 
+/-! ## the two front ends -/
+
+theorem frontEndPre_rel (opts : Opts) (ho : opts.optStatic = true) (fs : SrcFiles) (roots : List (List Char)) :
+    match frontEndPre opts fs roots with
+    | .error e => frontEndPre opts.staticOff fs roots = .error e
+    | .ok (d, on, nodes) => ∃ off, frontEndPre opts.staticOff fs roots = .ok (d, off, nodes) ∧ MRel opts d on off := by
+  unfold frontEndPre
+  cases hparse : (parseMany fs roots).map (·.map AstNode.fresh) with
+  | error e => rfl
+  | ok nodes0 =>
+    simp only
+    cases hb : (SymMgr.new "bank").declare [] "#global_bankdef" 0 .other with
+    | error e => rfl
+    | ok x =>
+      obtain ⟨r0, bm⟩ := x
+      simp only
+      have hfresh : ∀ x ∈ nodes0, ∃ y, x = AstNode.fresh y := by
+        cases hpm : parseMany fs roots with
+        | error e => rw [hpm] at hparse; cases hparse
+        | ok ns =>
+          rw [hpm] at hparse
+          injection hparse with hparse
+          rw [← hparse]
+          intro x hx
+          obtain ⟨y, _, rfl⟩ := List.mem_map.mp hx
+          exact ⟨y, rfl⟩
+      have f0 : FInv opts ({ banks := bm } : Decls) {} nodes0 := by
+        refine ⟨fun x hx => ?_, fun a ha b hb r h1 _ => ?_, fun r hr => (by cases hr), fun n hn => ?_⟩
+        · obtain ⟨y, rfl⟩ := hfresh x hx; exact KN_fresh _ y
+        · obtain ⟨y, rfl⟩ := hfresh a ha; rw [symRef_fresh] at h1; cases h1
+        · obtain ⟨y, rfl⟩ := hfresh n hn
+          cases y <;> first | trivial | (rename_i kd _ _; cases kd <;> trivial)
+      have hl := declLoop_rel opts ho (4 * (nodes0.length + 4) + 64 + 8 * (fs.foldl (fun n f => n + f.2.length) 0)) ({ banks := bm } : Decls) {} {} nodes0 0 (MRel.refl_empty opts _) f0
+      cases hd : declLoop opts (4 * (nodes0.length + 4) + 64 + 8 * (fs.foldl (fun n f => n + f.2.length) 0)) ({ banks := bm } : Decls) {} nodes0 0 with
+      | error e =>
+        rw [hd] at hl
+        simp only at hl
+        rw [hl]
+      | ok y =>
+        obtain ⟨d2, on2, nodes2⟩ := y
+        rw [hd] at hl
+        obtain ⟨off2, e2, m2⟩ := hl
+        rw [e2]
+        simp only
+        obtain ⟨f2, _⟩ := declLoop_finv opts _ _ _ _ _ _ _ _ f0 hd
+        rw [checkLeftoverIfs_rel m2]
+        cases checkLeftoverIfs d2 on2 nodes2 with
+        | error e => rfl
+        | ok u =>
+          simp only
+          obtain ⟨r1, r2⟩ := defineRemaining_rel m2 nodes2 f2.kinv
+          cases hdr : defineRemaining d2 on2 nodes2 with
+          | error e => rw [r1 e hdr]
+          | ok z =>
+            obtain ⟨on3, nodes3⟩ := z
+            obtain ⟨off3, e3, m3⟩ := r2 on3 nodes3 hdr
+            rw [e3]
+            exact ⟨off3, rfl, m3⟩
+
+theorem frontEnd_rel (opts : Opts) (ho : opts.optStatic = true) (fs : SrcFiles) (roots : List (List Char)) :
+    match frontEnd opts fs roots with
+    | .error e => frontEnd opts.staticOff fs roots = .error e
+    | .ok (st, nodes, on) => ∃ off, frontEnd opts.staticOff fs roots = .ok (st.withStatic false, nodes, off) ∧ MRel opts st.decls on off := by
+  unfold frontEnd
+  have hp := frontEndPre_rel opts ho fs roots
+  cases hpre : frontEndPre opts fs roots with
+  | error e =>
+    rw [hpre] at hp
+    simp only at hp
+    rw [hp]
+  | ok x =>
+    obtain ⟨d, on, nodes⟩ := x
+    rw [hpre] at hp
+    obtain ⟨off, e1, m⟩ := hp
+    rw [e1]
+    simp only
+    obtain ⟨h1, h2⟩ := matchAll_rel m nodes
+    rw [h1]
+    cases hm : matchAll opts d on nodes with
+    | mk on' rep =>
+      rw [hm] at h2
+      simp only at h2 ⊢
+      by_cases hrep : (!rep.isEmpty) = true
+      · simp only [hrep, if_true]
+      · simp only [hrep, if_false]
+        exact ⟨_, rfl, h2⟩
+
 end Casm
